@@ -4,7 +4,7 @@ PROPS = {
     'C14': dict(
         title='Field arithmetic is exact modular arithmetic on every representation',
         design_ref='DESIGN.md section 4 / C14',
-        vspecs=['contracts/C14/gl_core.vspec'],
+        vspecs=['contracts/C14/gl_core.vspec', 'contracts/C14/gl_ext.vspec'],
         level_text='Unbounded deductive proof (Verus/Z3) that each base-field kernel extracted from field/src/goldilocks_field.rs returns the '
                    'mathematically correct residue for every 64/96/128/160-bit representation, with every unchecked `assume`, overflow, '
                    'underflow and debug assertion turned into a discharged obligation. Proof is the right level: the failing operand '
